@@ -53,7 +53,11 @@
 /*
  * Active attempts to check for reader Q.S. before calling futex().
  */
+#if defined(URCU_VERIF) && defined(URCU_VERIF_RCU_QS_ACTIVE_ATTEMPTS)
+# define RCU_QS_ACTIVE_ATTEMPTS URCU_VERIF_RCU_QS_ACTIVE_ATTEMPTS
+#else
 #define RCU_QS_ACTIVE_ATTEMPTS 100
+#endif
 
 /* If the headers do not support membarrier system call, fall back on RCU_MB */
 #ifdef __NR_membarrier
